@@ -10,6 +10,7 @@ answered not-found.
 """
 import itertools
 import os
+import re
 import sys
 import urllib.parse
 
@@ -390,7 +391,10 @@ def oracle(ctx, res):
                                           required="every opened/listed/executed path lies under the root",
                                           replay=_rp(listname, p, s, layers, rq))
                 a, b = outs["A"], outs["B"]
-                if a.out != b.out:
+                # the two requests are made at different times: a directory's own time stamp (it changes when a cache file is
+                # rewritten in it) may fall on either side of a second boundary; everything else must be byte-identical
+                tmask = lambda x: re.sub(rb"(Last-Modified: |Mod-Date: )[^\r\n]*", rb"\1T", x or b"")  # noqa
+                if tmask(a.out) != tmask(b.out):
                     res.violation(_key("interference", a, s), "response depends on the world outside the root / cwd",
                                   _inp(listname, p, s, layers, rq, "A/B"),
                                   observed={"A": a.out[:200], "B": b.out[:200]}, required="byte-identical responses",
